@@ -4,6 +4,7 @@ import (
 	"fmt"
 
 	"github.com/xjslang/xjs/ast"
+	"github.com/xjslang/xjs/token"
 	"reflect"
 	"strings"
 	"testing"
@@ -104,10 +105,94 @@ func c13Check(c c13Case, rec *evid.Recorder) *Fail {
 			}
 			rec.NonTrivial("smart|" + c.Src)
 		}
+	case "corrupt":
+		if f := c13Corrupt(c.Src, rec); f != nil {
+			return f
+		}
 	default:
 		return failf("bad kind %q", c.Kind).tag("harness-selfcheck")
 	}
 	rec.Sample(len(c.Src), c)
+	return nil
+}
+
+// c13Corrupt: "differ only where documented" on arbitrary (mostly malformed)
+// text.  Whatever tolerant mode accepts without an error must be explainable by
+// its two documented relaxations alone: the tree it returns, printed compactly,
+// must consist of the tokens of the input in the same order, plus statement
+// terminators and closing braces at the very end (and parentheses the printer
+// adds in balanced pairs).  A tolerant parse that reports errors asserts nothing.
+func c13Corrupt(src string, rec *evid.Recorder) *Fail {
+	for _, smart := range []bool{false, true} {
+		rec.Eval()
+		pt, et, errT := parseX(src, Mode{Tolerant: true, Smart: smart})
+		if errT != nil || len(et) > 0 {
+			rec.Class("corrupt:tolerant-reports-errors")
+			continue
+		}
+		_, es, _ := parseX(src, Mode{Smart: smart})
+		if len(es) == 0 {
+			// strict mode accepts the text as well: the first clause (identical tree)
+			// decides; whether strict mode *should* accept it is C12's question
+			rec.Class("corrupt:strict-accepts-too")
+			continue
+		} else {
+			rec.Class("corrupt:tolerant-accepts,strict-rejects")
+			rec.NonTrivial(fmt.Sprintf("corrupt|%v|%s", smart, src))
+		}
+		code, perr, _ := safeCompile(pt, Cfg{})
+		if perr != nil {
+			return failf("tolerant mode (smart=%v) accepts the text without error but the tree does not compile: %v\nsrc %q", smart, perr, src)
+		}
+		in, out := lexAll(src), lexAll(code)
+		type tk struct {
+			t token.Type
+			l string
+		}
+		norm := func(ts []token.Token) (r []tk) {
+			for _, t := range ts {
+				switch t.Type {
+				case token.SEMICOLON, token.EOF:
+					continue
+				case token.STRING, token.RAW_STRING:
+					r = append(r, tk{t.Type, ""})
+				default:
+					r = append(r, tk{t.Type, t.Literal})
+				}
+			}
+			return r
+		}
+		a, b := norm(in), norm(out)
+		i, j, addOpen, addClose := 0, 0, 0, 0
+		bad := ""
+		for j < len(b) {
+			switch {
+			case i < len(a) && a[i] == b[j]:
+				i++
+				j++
+			case b[j].t == token.LPAREN:
+				addOpen++
+				j++
+			case b[j].t == token.RPAREN:
+				addClose++
+				j++
+			case i == len(a) && b[j].t == token.RBRACE:
+				j++ // block closed at end of input
+			default:
+				bad = fmt.Sprintf("output token %d is %q, which the input does not have there", j, b[j].l)
+				j = len(b)
+			}
+		}
+		if bad == "" && i < len(a) {
+			bad = fmt.Sprintf("input token %d (%q) does not appear in the tree", i, a[i].l)
+		}
+		if bad == "" && addOpen != addClose {
+			bad = fmt.Sprintf("the printed tree has %d opening and %d closing parentheses that the input lacks", addOpen, addClose)
+		}
+		if bad != "" {
+			return failf("tolerant mode (smart=%v) accepts without error a text whose acceptance its documented relaxations (missing statement separator, block open at end of input) do not explain: %s\nsrc  %q\ntree %q\nstrict errors %v", smart, bad, src, code, es)
+		}
+	}
 	return nil
 }
 
@@ -122,7 +207,14 @@ func mustShape(p interface{}) *ir.Node {
 func c13Gen(t *rapid.T, rec *evid.Recorder) c13Case {
 	r := gen.R{T: t}
 	g := &gen.Syn{R: r, MaxDepth: 1 + r.Intn(3, "depth"), StmtDepth: r.Intn(3, "sdepth"), RichStr: true, Tpl: true, MultiTpl: true}
-	switch r.Pick("c13kind", 3, 3, 2, 4) {
+	switch r.Pick("c13kind", 3, 3, 2, 4, 3) {
+	case 4:
+		tree := g.Program(4)
+		src, toks := layout.Source(r, tree, layout.Options{Random: true, ASI: true, Comments: r.Bool("comments")})
+		if r.Bool("truncate") && len(src) > 0 {
+			return c13Case{Kind: "corrupt", Src: src[:r.Intn(len(src), "cut")]}
+		}
+		return c13Case{Kind: "corrupt", Src: mutateTokens(r, toks)}
 	case 0:
 		tree := g.Program(5)
 		opt := layout.Options{Random: true, ASI: true, Comments: true}
@@ -213,6 +305,20 @@ func c13Gen(t *rapid.T, rec *evid.Recorder) c13Case {
 	}
 }
 
+func c13Exhaustive(rec *evid.Recorder, report func(c13Case)) {
+	n := 6
+	if thorough() {
+		n = 150
+	}
+	for _, src := range sweepPrograms(n) {
+		singleEdits(src, func(what, text string) {
+			rec.Class("sweep:corrupted-texts")
+			report(c13Case{Kind: "corrupt", Src: text})
+		})
+	}
+	rec.Exhaustive("tolerant mode on every single-lexeme edit and lexeme-boundary truncation of the swept programs")
+}
+
 func nextTok(toks []*layout.Tok, i int) *layout.Tok {
 	for j := i + 1; j < len(toks); j++ {
 		if toks[j].Rendered != "" && toks[j].Kind != layout.EOF {
@@ -223,6 +329,8 @@ func nextTok(toks []*layout.Tok, i int) *layout.Tok {
 }
 
 var c13Witnesses = []c13Case{
+	{Kind: "corrupt", Src: "foo(a, b"}, {Kind: "corrupt", Src: "let x = (1 + 2"}, {Kind: "corrupt", Src: "let o = {k: 1"}, {Kind: "corrupt", Src: "x = arr[i"}, {Kind: "corrupt", Src: "function f(a, b"},
+	{Kind: "corrupt", Src: "if (a) { b c 1 .d"}, {Kind: "corrupt", Src: "while (i < 10"}, {Kind: "corrupt", Src: "let"}, {Kind: "corrupt", Src: "a b c { d { e"},
 	{Kind: "join", Orig: "let a = 1; let b = 2", Src: "let a = 1 let b = 2"},
 	{Kind: "join", Orig: "a = b\nc()", Src: "a = b c()"},
 	{Kind: "open-block", Orig: "function f() { if (a) { b } }", Src: "function f() { if (a) { b "},
@@ -232,5 +340,5 @@ var c13Witnesses = []c13Case{
 }
 
 func TestC13(t *testing.T) {
-	run(t, &prop[c13Case]{ID: "C13", Gen: c13Gen, Check: c13Check, Witnesses: c13Witnesses})
+	run(t, &prop[c13Case]{ID: "C13", Gen: c13Gen, Check: c13Check, Exhaustive: c13Exhaustive, Witnesses: c13Witnesses})
 }
